@@ -2,3 +2,5 @@ import ChaiVerif.Props.C05
 import ChaiVerif.Drv.Arith
 import ChaiVerif.Props.C16
 import ChaiVerif.Drv.Lit
+import ChaiVerif.Props.C12
+import ChaiVerif.Drv.Stl
